@@ -1,0 +1,17 @@
+//go:build verif
+
+package pipeline
+
+// Verification-only accessors for the C08/C09 trace harness (build tag `verif`).
+
+// VerifBatchSeq returns the sequence number assigned to a sealed batch.
+func VerifBatchSeq(b *Batch) int64 { return b.seq }
+
+// VerifBatchStatus returns the batch status as set by updateStatus / RetriableBatcher.Out.
+func VerifBatchStatus(b *Batch) BatchStatus { return b.status }
+
+// VerifBatchLen returns the number of events held by the batch (parents included).
+func VerifBatchLen(b *Batch) int { return len(b.events) }
+
+// VerifBatcher returns the Batcher wrapped by a RetriableBatcher.
+func (b *RetriableBatcher) VerifBatcher() *Batcher { return b.batcher }
